@@ -192,6 +192,7 @@ FAMILY_HOOKS = {
     ("hv", "cluster.go"): ["cluster/hooks.go"],
     ("hvs", "inbox.go"): ["actor/hooks.go"], ("hvs", "procsched.go"): ["actor/hooks.go"],
     ("hvs", "registry.go"): ["actor/hooks.go", "actor/registry_hooks.go"], ("hvs", "ring.go"): ["ringbuffer/ringconc.go"],
+    ("hvs", "treerace.go"): ["actor/hooks.go", "actor/tree.go"],
 }
 KEEP_ALWAYS = ("main.go", "shared.go")
 # harness family name -> the source file of cmd/<binary>/ that implements it
@@ -200,7 +201,7 @@ FAMILY_FILE = {"ring": "ring.go", "proc": "proc.go", "deliver": "deliver.go", "w
                "events12": "events.go", "undeliv09": "events.go", "corner09": "corner09.go", "respawn": "registry.go",
                "reqresp": "response.go", "reqstorm": "response.go", "reqboundary": "response.go", "reqcollide": "response.go",
                "tree08": "tree.go", "inboxsched": "inbox.go", "procsched": "procsched.go", "regsched": "registry.go",
-               "ringsched": "ring.go"}
+               "ringsched": "ring.go", "treerace": "treerace.go", "node1820": "cluster.go"}
 
 
 def restricted_overlay(binary, fams):
